@@ -8,7 +8,11 @@ import KonstVerif.Spec.Slice
 namespace Driver.C02
 open Konst Konst.Slice Konst.Spec Driver
 
-def handle (fn : String) (args : List String) : Option (String × String) := do
+/-- the element list the SPEC is evaluated on; zero-sized slices with more than 10^5 (up to 2^64) elements, which
+    the harness also generates, cannot be materialised: for them the spec column is `?` (see `handle`) -/
+def mkS (len : Nat) : List Nat := if len ≤ 100000 then List.range len else []
+
+def handleAny (fn : String) (args : List String) : Option (String × String) := do
   let base := (fn.splitOn ".mut").head!
   let isMut := fn.endsWith ".mut"
   match args with
@@ -21,51 +25,51 @@ def handle (fn : String) (args : List String) : Option (String × String) := do
     let sol := showOptIdxList zst
     match base, nums with
     | "get", [len, i] =>
-      let s := List.range len
+      let s := mkS len
       some (sov (Slice.get len i), sol (stdGet s i))
     | "get_from", [len, a] =>
-      let s := List.range len
+      let s := mkS len
       some (sov (getFrom len a), sol (stdGetFrom s a))
     | "get_up_to", [len, b] =>
-      let s := List.range len
+      let s := mkS len
       some (sov (getUpTo len b), sol (stdGetUpTo s b))
     | "get_range", [len, a, b] =>
-      let s := List.range len
+      let s := mkS len
       some (sov (getRange len a b), sol (stdGetRange s a b))
     | "slice_from", [len, a] =>
-      let s := List.range len
+      let s := mkS len
       some (sv (sliceFrom len a), sl ((stdGetFrom s a).getD []))
     | "slice_up_to", [len, b] =>
-      let s := List.range len
+      let s := mkS len
       some (sv (sliceUpTo len b), sl ((stdGetUpTo s b).getD s))
     | "slice_range", [len, a, b] =>
-      let s := List.range len
+      let s := mkS len
       -- documented clamp: indices beyond the length act as the length, start > end gives empty
       some (sv (sliceRange len a b), sl ((s.take b).drop a))
     | "split_at", [len, a] =>
-      let s := List.range len
+      let s := mkS len
       let (l, r) := if isMut then splitAtMut len a else splitAt len a
       let (sl_, sr) := (stdSplitAt s a).getD (s, [])
       some (sv l ++ "|" ++ sv r, sl sl_ ++ "|" ++ sl sr)
     | "first", [len] =>
-      let s := List.range len
+      let s := mkS len
       some (sov (first len), sol (s.head?.map fun x => [x]))
     | "last", [len] =>
-      let s := List.range len
+      let s := mkS len
       some (sov (last len), sol (s.getLast?.map fun x => [x]))
     | "split_first", [len] =>
-      let s := List.range len
+      let s := mkS len
       some ((match splitFirst len with | none => "none" | some (a, b) => sv a ++ "|" ++ sv b),
             (match s with | [] => "none" | x :: r => sl [x] ++ "|" ++ sl r))
     | "split_last", [len] =>
-      let s := List.range len
+      let s := mkS len
       some ((match splitLast len with | none => "none" | some (a, b) => sv a ++ "|" ++ sv b),
             (match s.getLast? with | none => "none" | some x => sl [x] ++ "|" ++ sl s.dropLast))
     | "try_into_array", [len, n] =>
-      let s := List.range len
+      let s := mkS len
       some (sov (tryIntoArray len n), if s.length = n then sl s else "none")
     | "as_chunks", [len, n] =>
-      let s := List.range len
+      let s := mkS len
       some ((match asChunks len n with
               | none => "panic"
               | some (a, k, r) => sv a ++ "|" ++ toString k ++ "|" ++ sv r),
@@ -73,7 +77,7 @@ def handle (fn : String) (args : List String) : Option (String × String) := do
               let (cs, r) := stdAsChunks n s
               sl cs.flatten ++ "|" ++ toString cs.length ++ "|" ++ sl r))
     | "as_rchunks", [len, n] =>
-      let s := List.range len
+      let s := mkS len
       some ((match asRchunks len n with
               | none => "panic"
               | some (r, a, k) => sv r ++ "|" ++ sv a ++ "|" ++ toString k),
@@ -82,5 +86,15 @@ def handle (fn : String) (args : List String) : Option (String × String) := do
               sl r ++ "|" ++ sl cs.flatten ++ "|" ++ toString cs.length))
     | _, _ => none
   | _ => none
+
+/-- model = computed from the length alone (any length); spec = list semantics, `?` for lengths that cannot be
+    materialised (the theorems of Props/C02 cover every length) -/
+def handle (fn : String) (args : List String) : Option (String × String) :=
+  match handleAny fn args with
+  | none => none
+  | some (m, s) =>
+    match args with
+    | _ :: lenS :: _ => if (lenS.toNat?.getD 0) ≤ 100000 then some (m, s) else some (m, "?")
+    | _ => some (m, s)
 
 end Driver.C02
